@@ -36,6 +36,10 @@ type rangeCase struct {
 	Hi  int     `json:"hi"`
 	// filled from TLC
 	Reads [][]int `json:"reads"` // [node-1][key-1] -> node whose value is read / 0 / -1
+	// DRFails: a key of the DeleteRange interval is in merge conflict at d; the outcome of such a
+	// DeleteRange is outside the property (the store deletes the keys scanned before the conflict
+	// and reports success), so the case is not replayed
+	DRFails bool `json:"drfails"`
 }
 
 func tlaSeqInts(a []int) string {
@@ -82,13 +86,15 @@ func evalRangeCases(c *Ctx, cases []*rangeCase) (states, trans int64) {
 		got := false
 		PrintedJSON(r.Output, func(raw []byte) {
 			var out []struct {
-				Reads [][]int `json:"reads"`
+				Reads   [][]int `json:"reads"`
+				DRFails bool    `json:"drfails"`
 			}
 			if err := json.Unmarshal(raw, &out); err != nil || len(out) != end-off {
 				return
 			}
 			for i := range out {
 				cases[off+i].Reads = out[i].Reads
+				cases[off+i].DRFails = out[i].DRFails
 			}
 			got = true
 		})
@@ -483,6 +489,19 @@ func checkC05(c *Ctx) int {
 	s2, t2 := evalRangeCases(c, all)
 	states += s2
 	trans += t2
+	skipped := 0
+	for si := range byShape {
+		var keep []*rangeCase
+		for _, rc := range byShape[si] {
+			if rc.DRFails {
+				skipped++
+				continue
+			}
+			keep = append(keep, rc)
+		}
+		byShape[si] = keep
+	}
+	run.Set("cases_skipped_conflict_inside_deleterange_interval", skipped)
 	var nq int64
 	workers := 16
 	ws := make([]*dagWorker, workers)
